@@ -679,10 +679,56 @@ class Body:
                     src = a.get('cp') or a.get('mv')
                     if src and not src.get('pr'):
                         work.append(src['l'])
+                elif d[0] == 'call' and d[2].get('name') in self._TEST_FNS and d[2]['args']:
+                    a = d[2]['args'][0]
+                    src = a.get('cp') or a.get('mv')
+                    if src and not src.get('pr'):
+                        for d2 in defs.get(src['l'], []):
+                            if d2[0] == 'stmt' and 'ref' in d2[3] and not d2[3]['ref'].get('pr'):
+                                work.append(d2[3]['ref']['l'])
         self._psrel = rel
         return rel
 
     _BRANCH_MAP = {'Ok': 'Continue', 'Some': 'Continue', 'Err': 'Break', 'None': 'Break', 'Ready': None}
+    _TEST_FNS = {'is_err': ('Err', 'Ok'), 'is_ok': ('Ok', 'Err'), 'is_some': ('Some', 'None'), 'is_none': ('None', 'Some')}
+
+    def _ps_edges(self, bb, know):
+        """[(successor, knowledge dict on that edge)]: _ps_step plus what the branch itself teaches (a switch on the
+        discriminant of x, or on x.is_err()/is_ok()/is_some()/is_none(), pins x's variant on each edge)"""
+        know2, succs = self._ps_step(bb, know)
+        t = self.blocks[bb]['term']
+        if t['k'] != 'switch':
+            return [(s_, know2) for s_ in succs]
+        on = t['on']
+        pl = on.get('cp') or on.get('mv')
+        kk = know2.get(pl['l']) if (pl is not None and not pl.get('pr')) else None
+        if not kk or kk[0] not in ('dx', 'tx'):
+            return [(s_, know2) for s_ in succs]
+        x = kk[1]
+        out = []
+        edges = self.switch_edges(bb)
+        for s_ in succs:
+            vals = edges.get(s_, [])
+            kn = know2
+            var = None
+            if kk[0] == 'dx':
+                names = dict(kk[2])
+                if len(vals) == 1 and vals[0] != 'else':
+                    var = names.get(vals[0])
+                elif vals == ['else']:
+                    armv = {v for v, _ in t['arms']}
+                    rest = [n for v, n in kk[2] if v not in armv]
+                    var = rest[0] if len(rest) == 1 else None
+            else:
+                if vals == [0]:
+                    var = kk[3]
+                elif vals and 0 not in vals:
+                    var = kk[2]
+            if var is not None:
+                kn = dict(know2)
+                kn[x] = ('v', var, None)
+            out.append((s_, kn))
+        return out
 
     def _ps_step(self, bb, know):
         """abstractly execute block bb on knowledge dict {local: ('v', variant) | ('d', int)}; returns (know', [succs])"""
@@ -738,6 +784,10 @@ class Body:
                         for val, name in rv.get('variants', []):
                             if name == k[1]:
                                 new = ('d', val)
+            if new is None and 'discr' in rv and not rv['discr'].get('pr') and rv.get('variants'):
+                new = ('dx', rv['discr']['l'], tuple((v, n) for v, n in rv['variants']))
+            for k_ in [k_ for k_, v_ in know.items() if v_ and v_[0] in ('dx', 'tx') and v_[1] == l]:
+                know.pop(k_, None)
             if new is None:
                 know.pop(l, None)
             else:
@@ -756,6 +806,23 @@ class Body:
                         if kk and kk[0] == 'v' and self._BRANCH_MAP.get(kk[1]):
                             bm = self._BRANCH_MAP[kk[1]]
                             new = ('v', bm, kk[2] if bm == 'Continue' and len(kk) > 2 else None)
+                if new is None and t.get('name') in self._TEST_FNS and t['args'] and d['l'] in rel:
+                    a = t['args'][0]
+                    src = a.get('cp') or a.get('mv')
+                    x = None
+                    if src is not None and not src.get('pr'):
+                        ds_ = self.defs().get(src['l'], [])
+                        if len(ds_) == 1 and ds_[0][0] == 'stmt' and 'ref' in ds_[0][3] and not ds_[0][3]['ref'].get('pr'):
+                            x = ds_[0][3]['ref']['l']
+                    if x is not None:
+                        tv, fv = self._TEST_FNS[t['name']]
+                        kx = know.get(x)
+                        if kx and kx[0] == 'v':
+                            new = ('d', 1 if kx[1] == tv else 0) if kx[1] in (tv, fv) else None
+                        else:
+                            new = ('tx', x, tv, fv)
+                for k_ in [k_ for k_, v_ in know.items() if v_ and v_[0] in ('dx', 'tx') and v_[1] == d['l']]:
+                    know.pop(k_, None)
                 if new is None:
                     know.pop(d['l'], None)
                 else:
@@ -769,6 +836,16 @@ class Body:
                 kk = know.get(pl['l'])
                 if kk and kk[0] == 'd':
                     val = kk[1]
+                elif kk and kk[0] == 'dx':
+                    kx = know.get(kk[1])
+                    if kx and kx[0] == 'v':
+                        for v_, n_ in kk[2]:
+                            if n_ == kx[1]:
+                                val = v_
+                elif kk and kk[0] == 'tx':
+                    kx = know.get(kk[1])
+                    if kx and kx[0] == 'v' and kx[1] in (kk[2], kk[3]):
+                        val = 1 if kx[1] == kk[2] else 0
             elif 'k' in on and isinstance(on['k'].get('v'), (int, bool)):
                 val = int(on['k']['v'])
             if val is not None:
@@ -805,7 +882,7 @@ class Body:
         c[bb] = res
         return res
 
-    def reach_ps(self, start, removed=(), removed_edges=(), cap=60000):
+    def reach_ps(self, start, removed=(), removed_edges=(), cap=60000, know0=None):
         """blocks reachable from `start` (a block or list of blocks, entered with no knowledge) when branches on the
         discriminant of a value whose variant is known on the path (built as Ok/Err/Some/None.. on that path, possibly passed
         through `?`) are followed only along the matching arm.  Sound over-approximation of the feasible paths; falls back
@@ -816,16 +893,16 @@ class Body:
         seen = set()
         out = set()
         dq = deque()
+        k0 = frozenset((know0 or {}).items())
         for s0 in starts:
             if s0 not in removed:
-                dq.append((s0, frozenset()))
-                seen.add((s0, frozenset()))
+                dq.append((s0, k0))
+                seen.add((s0, k0))
         while dq:
             bb, ks = dq.popleft()
             out.add(bb)
-            know, succs = self._ps_step(bb, dict(ks))
-            fk = frozenset(know.items())
-            for s in succs:
+            for s, kn_ in self._ps_edges(bb, dict(ks)):
+                fk = frozenset(kn_.items())
                 if s in removed or (bb, s) in removed_edges:
                     continue
                 if (s, fk) in seen:
@@ -1203,8 +1280,8 @@ def decision_rows(body, start, effects, relevant=None, limit=50000, stop=None):
         if bb in stop:
             continue
         t = body.term(bb)
-        know, feas = body._ps_step(bb, dict(ks))
-        fk = frozenset(know.items())
+        pe = body._ps_edges(bb, dict(ks))
+        feas = {s_: frozenset(kn_.items()) for s_, kn_ in pe}
         if t['k'] == 'switch':
             subj, mode, cv = classify_test(simplify(body.origin(t['on'])))
             rel = relevant(subj) if relevant else True
@@ -1213,6 +1290,7 @@ def decision_rows(body, start, effects, relevant=None, limit=50000, stop=None):
             for tgt, vals in edges.items():
                 if tgt not in feas:
                     continue  # the value switched on is known on this path (built as that variant earlier on it)
+                fk = feas[tgt]
                 if vals == ['else'] and body.else_infeasible(bb):
                     continue
                 if not rel:
@@ -1248,7 +1326,7 @@ def decision_rows(body, start, effects, relevant=None, limit=50000, stop=None):
                     continue  # contradictory: infeasible by constant comparison
                 stack.append((tgt, newc, fk))
         else:
-            for s in feas:
+            for s, fk in feas.items():
                 stack.append((s, cons, fk))
     return rows
 
@@ -1270,8 +1348,8 @@ def path_rows(body, start=0, relevant=None, stop=None, limit=20000, meta=None):
         if t['k'] == 'ret' or bb in stop:
             rows.append((cons, list(path)))
             continue
-        know, feas = body._ps_step(bb, dict(ks))
-        fk = frozenset(know.items())
+        pe = body._ps_edges(bb, dict(ks))
+        feas = {s_: frozenset(kn_.items()) for s_, kn_ in pe}
         nxt = []
         if t['k'] == 'switch':
             o = simplify(body.origin(t['on']))
@@ -1310,7 +1388,7 @@ def path_rows(body, start=0, relevant=None, stop=None, limit=20000, meta=None):
         for tgt, c2 in nxt:
             if tgt in path:
                 continue  # acyclic paths only
-            stack.append((tgt, c2, fk, path + (tgt,)))
+            stack.append((tgt, c2, feas[tgt], path + (tgt,)))
     return rows
 
 
